@@ -7,7 +7,7 @@ LEAN_MODULE = "Ucfg.Props.C06"
 LEVEL_TEXT = 'Round-trip theorems per primitive kind (value -> setting -> same value); the lift to whole structs is PARTIAL and decided by the roundtrip correspondence over generated struct types; known finding D24.'
 CORRESPONDENCE = "Normalize.normStructInto + Unpack.unpack ~ ucfg.NewFrom(v) then (*Config).Unpack(&zero)"
 RULE = ("struct types from the type generator restricted to the supported kinds (no interface{}, no arrays as map values) with tags "
-        "(rename, inline struct, ignore) x values of those types incl. zero values, extreme numbers (MinInt64, MaxUint64, +-Inf, NaN, "
+        "(rename, inline struct, ignore, embedded structs, dotted tags reaching into a sibling struct's subtree under PathSep) x values of those types incl. zero values, extreme numbers (MinInt64, MaxUint64, +-Inf, NaN, "
         "sized-type boundaries), empty and nil collections, nil and non-nil pointers, durations, regular expressions and strings over "
         "'$', '.', ',', braces, quotes and spaces. Oracle: the unpacked value equals the original (nil = empty collection). "
         "Non-trivial: the value has a non-zero field below the top level. Distinct by (type signature, value classes).")
@@ -114,6 +114,24 @@ def gen(rng, tier):
         v = rt_value(rng, ty)
         yield {"k": "roundtrip", "ty": ty, "val": v, "opts": [], "byPtr": rng.chance(0.3), "_tag": "roundtrip", "_nt": True,
                "_sig": TG.type_sig(ty, 3)}
+    # dotted tags that reach into the namespace of a sibling struct field (with a path separator): the two spellings
+    # of one subtree are combined on the way in and read back through both
+    for _ in range(n // 8):
+        depth = 1 + rng.below(3)                    # how deep the dotted tag reaches below the sibling's name
+        names = ["srv", "tls", "opt", "lvl"][:depth]
+        inner = TG.T("struct", f=[{"n": "Cert", "tag": "cert", "v": "", "ty": TG.T("string")}, {"n": "Verify", "tag": "", "v": "", "ty": TG.T("bool")},
+                                  {"n": "N", "tag": "", "v": "", "ty": TG.T("int")}])
+        for nm in reversed(names[1:]):
+            inner = TG.T("struct", f=[{"n": nm.capitalize(), "tag": nm, "v": "", "ty": inner}, {"n": "Other", "tag": "other_" + nm, "v": "", "ty": TG.T("uint8")}])
+        dotted = {"n": "Enabled", "tag": ".".join(names + ["enabled"]), "v": "", "ty": TG.rand_prim(rng)}
+        nested = {"n": "Srv", "tag": names[0], "v": "", "ty": inner}
+        extra = {"n": "Z", "tag": "", "v": "", "ty": TG.rand_prim(rng)}
+        fields = [dotted, nested, extra] if rng.chance(0.6) else [nested, dotted, extra]
+        if rng.chance(0.3):
+            fields.insert(rng.below(3), {"n": "Port", "tag": ".".join(names[:1] + ["port"]), "v": "", "ty": TG.T("uint16")})
+        ty = TG.T("struct", f=fields)
+        yield {"k": "roundtrip", "ty": ty, "val": rt_value(rng, ty), "opts": [opt("PathSep", ".")], "byPtr": rng.chance(0.3), "_tag": "roundtrip/dotted-tags",
+               "_nt": True, "_sig": "dotted|%d|%s" % (depth, fields[0]["n"])}
 
 
 fix_candidate = TG.fix_typed_candidate
